@@ -1,4 +1,256 @@
-(* C16 - argument history is a faithful, ordered log of edits. *)
-From Fiddle Require Import PyBase PySlice Sig ArgStore History Anchors.
+(* C16 - argument history is a faithful, ordered log of edits.
+   Model: History.hstep / hrun (History.v) over ArgStore.step_w; the boolean invariants
+   seqs_ok_b and last_is_current_b are the ones C16Check tests against the implementation.
+   This file contains statements only; proofs live in theories/History_proofs.v. *)
+From Fiddle Require Import PyBase PySlice Sig ArgStore ArgSpec History History_proofs Anchors.
 
-Example C16_placeholder : True. Proof. exact I. Qed.
+(* ---- 1. sequence numbers: below the counter, unique, increasing per key -- every operation *)
+Theorem C16_seqs_ok_hstep :
+  forall sg s o, seqs_ok_b s = true -> seqs_ok_b (fst (hstep sg s o)) = true.
+Proof. exact seqs_ok_hstep. Qed.
+Print Assumptions C16_seqs_ok_hstep.
+
+Theorem C16_seqs_ok_hrun :
+  forall sg ops s, seqs_ok_b s = true -> seqs_ok_b (hrun sg s ops) = true.
+Proof. exact seqs_ok_hrun. Qed.
+Print Assumptions C16_seqs_ok_hrun.
+
+Theorem C16_counter_mono_hstep : forall sg s o, (b_counter s <= b_counter (fst (hstep sg s o)))%nat.
+Proof. exact counter_mono_hstep. Qed.
+Print Assumptions C16_counter_mono_hstep.
+
+Theorem C16_counter_mono_hrun : forall sg ops s, (b_counter s <= b_counter (hrun sg s ops))%nat.
+Proof. exact counter_mono_hrun. Qed.
+Print Assumptions C16_counter_mono_hrun.
+
+(* every entry of the new history is an old one or is numbered in [old counter, new counter) *)
+Theorem C16_new_entries_hstep :
+  forall sg s o en,
+    In en (all_entries (b_hist (fst (hstep sg s o)))) ->
+    In en (all_entries (b_hist s)) \/
+    (b_counter s <= he_seq en < b_counter (fst (hstep sg s o)))%nat.
+Proof. exact hstep_new_entries. Qed.
+Print Assumptions C16_new_entries_hstep.
+
+Theorem C16_new_entries_hrun :
+  forall sg ops s en,
+    In en (all_entries (b_hist (hrun sg s ops))) ->
+    In en (all_entries (b_hist s)) \/ (b_counter s <= he_seq en < b_counter (hrun sg s ops))%nat.
+Proof. exact hrun_new_entries. Qed.
+Print Assumptions C16_new_entries_hrun.
+
+(* append-only, key by key *)
+Theorem C16_append_only_hrun :
+  forall sg ops s k,
+    exists suffix,
+      hist_get (b_hist (hrun sg s ops)) k = hist_get (b_hist s) k ++ suffix /\
+      (forall en, In en suffix -> (b_counter s <= he_seq en < b_counter (hrun sg s ops))%nat).
+Proof. exact hrun_append_only. Qed.
+Print Assumptions C16_append_only_hrun.
+
+(* program order *)
+Theorem C16_program_order :
+  forall sg s ops e1 e2,
+    seqs_ok_b s = true ->
+    In e1 (all_entries (b_hist s)) ->
+    In e2 (all_entries (b_hist (hrun sg s ops))) -> ~ In e2 (all_entries (b_hist s)) ->
+    (he_seq e1 < he_seq e2)%nat.
+Proof. exact hrun_program_order. Qed.
+Print Assumptions C16_program_order.
+
+(* ---- 2. suspended tracking *)
+Theorem C16_suspended_appends_nothing :
+  forall sg s o,
+    b_tracking s = false -> o <> HSuspendBegin -> o <> HSuspendEnd ->
+    b_hist (fst (hstep sg s o)) = b_hist s /\ b_counter (fst (hstep sg s o)) = b_counter s.
+Proof.
+  intros sg s o T N1 N2. apply suspended_hstep; [exact T|].
+  destruct o; try reflexivity; congruence.
+Qed.
+Print Assumptions C16_suspended_appends_nothing.
+
+Theorem C16_switch_untouched :
+  forall sg s o,
+    o <> HSuspendBegin -> o <> HSuspendEnd ->
+    b_tracking (fst (hstep sg s o)) = b_tracking s /\ b_stack (fst (hstep sg s o)) = b_stack s.
+Proof.
+  intros sg s o N1 N2. apply hstep_switch_same. destruct o; try reflexivity; congruence.
+Qed.
+Print Assumptions C16_switch_untouched.
+
+(* balanced ops = depth_after 0 ops = Some 0: every end has a begin and all begins are closed *)
+Theorem C16_balanced_restores :
+  forall sg s ops,
+    balanced ops ->
+    b_tracking (hrun sg s ops) = b_tracking s /\ b_stack (hrun sg s ops) = b_stack s.
+Proof. exact balanced_restores. Qed.
+Print Assumptions C16_balanced_restores.
+
+Theorem C16_suspend_block :
+  forall sg s ops,
+    balanced ops ->
+    let s' := hrun sg s (HSuspendBegin :: ops ++ [HSuspendEnd]) in
+    b_tracking s' = b_tracking s /\ b_stack s' = b_stack s /\
+    b_hist s' = b_hist s /\ b_counter s' = b_counter s.
+Proof. exact suspend_block. Qed.
+Print Assumptions C16_suspend_block.
+
+(* ---- 3. the history is unobservable (same_core = equal b_args and equal b_tags) *)
+Theorem C16_history_unobservable_hstep :
+  forall sg s1 s2 o,
+    b_args s1 = b_args s2 /\ b_tags s1 = b_tags s2 ->
+    (b_args (fst (hstep sg s1 o)) = b_args (fst (hstep sg s2 o)) /\
+     b_tags (fst (hstep sg s1 o)) = b_tags (fst (hstep sg s2 o))) /\
+    snd (hstep sg s1 o) = snd (hstep sg s2 o).
+Proof. exact hstep_core. Qed.
+Print Assumptions C16_history_unobservable_hstep.
+
+Theorem C16_history_unobservable_hrun :
+  forall sg ops s1 s2,
+    same_core s1 s2 ->
+    same_core (hrun sg s1 ops) (hrun sg s2 ops) /\ houts sg s1 ops = houts sg s2 ops.
+Proof. exact hrun_core. Qed.
+Print Assumptions C16_history_unobservable_hrun.
+
+Theorem C16_suspend_ops_change_nothing :
+  forall sg s o,
+    is_suspend o = true ->
+    (b_args (fst (hstep sg s o)) = b_args s /\ b_tags (fst (hstep sg s o)) = b_tags s) /\
+    snd (hstep sg s o) = OUnit.
+Proof. exact hstep_suspend_core. Qed.
+Print Assumptions C16_suspend_ops_change_nothing.
+
+(* ---- 4. one entry per primitive write, in order, numbered counter, counter+1, ... *)
+Theorem C16_edit_entries :
+  forall sg s ed,
+    b_tracking s = true ->
+    let writes := snd (fst (step_w sg (b_args s) ed)) in
+    let s' := fst (hstep sg s (HEdit ed)) in
+    b_hist s' = hreplay (b_hist s) (b_counter s) (map write_entry writes) /\
+    b_counter s' = (b_counter s + length writes)%nat /\
+    length (all_entries (b_hist s')) = (length (all_entries (b_hist s)) + length writes)%nat /\
+    b_args s' = fst (fst (step_w sg (b_args s) ed)) /\ b_tags s' = b_tags s.
+Proof. exact edit_entries. Qed.
+Print Assumptions C16_edit_entries.
+
+Theorem C16_edit_entries_indexed :
+  forall sg s ed,
+    b_tracking s = true ->
+    let writes := snd (fst (step_w sg (b_args s) ed)) in
+    b_hist (fst (hstep sg s (HEdit ed))) =
+    fold_left (fun h iw => hist_append h (fst (snd iw)) (mk_he (b_counter s + fst iw) (snd (snd iw))))
+              (combine (seq 0 (length writes)) (map write_entry writes)) (b_hist s).
+Proof. exact edit_entries_indexed. Qed.
+Print Assumptions C16_edit_entries_indexed.
+
+(* ---- 5. the last entry is current *)
+(* the write log of every edit replays to the final store (delete only of present keys) *)
+Theorem C16_step_w_replay :
+  forall sg args o,
+    replay_writes args (snd (fst (step_w sg args o))) = Some (fst (fst (step_w sg args o))).
+Proof. exact step_w_replay. Qed.
+Print Assumptions C16_step_w_replay.
+
+Theorem C16_step_w_keys_distinct :
+  forall sg args o,
+    keys_distinct args = true -> keys_distinct (fst (fst (step_w sg args o))) = true.
+Proof. exact step_w_keys_distinct. Qed.
+Print Assumptions C16_step_w_keys_distinct.
+
+(* the requested statement is false when the history lists a key twice ... *)
+Theorem C16_last_is_current_counterexample :
+  exists sg s o,
+    b_tracking s = true /\ keys_distinct (b_args s) = true /\ last_is_current_b s = true /\
+    seqs_ok_b s = true /\ is_suspend o = false /\
+    last_is_current_b (fst (hstep sg s o)) = false.
+Proof. exact last_is_current_needs_distinct_history_keys. Qed.
+Print Assumptions C16_last_is_current_counterexample.
+
+(* ... and holds for every operation when the history keys are distinct (a dict) *)
+Theorem C16_last_is_current_hstep_partial :
+  forall sg s o,
+    b_tracking s = true -> keys_distinct (b_args s) = true -> NoDup (map fst (b_hist s)) ->
+    last_is_current_b s = true -> is_suspend o = false ->
+    last_is_current_b (fst (hstep sg s o)) = true.
+Proof. exact last_is_current_hstep_partial. Qed.
+Print Assumptions C16_last_is_current_hstep_partial.
+
+(* the three hypotheses form an invariant of every step taken with tracking on (or a switch) *)
+Theorem C16_hist_inv_hstep :
+  forall sg s o,
+    hist_inv s -> b_tracking s = true \/ is_suspend o = true -> hist_inv (fst (hstep sg s o)).
+Proof. exact hist_inv_hstep. Qed.
+Print Assumptions C16_hist_inv_hstep.
+
+Theorem C16_last_is_current_hrun_partial :
+  forall sg s ops,
+    b_tracking s = true -> keys_distinct (b_args s) = true -> NoDup (map fst (b_hist s)) ->
+    last_is_current_b s = true -> forallb (fun o => negb (is_suspend o)) ops = true ->
+    last_is_current_b (hrun sg s ops) = true.
+Proof. exact last_is_current_hrun_partial. Qed.
+Print Assumptions C16_last_is_current_hrun_partial.
+
+(* tracked_run: every operation other than the switch runs with tracking on (C16Check's `clean`) *)
+Theorem C16_last_is_current_tracked_run :
+  forall sg s ops,
+    keys_distinct (b_args s) = true -> NoDup (map fst (b_hist s)) -> last_is_current_b s = true ->
+    tracked_run sg s ops = true -> last_is_current_b (hrun sg s ops) = true.
+Proof. exact last_is_current_tracked_run. Qed.
+Print Assumptions C16_last_is_current_tracked_run.
+
+Theorem C16_hist_inv_hrun :
+  forall sg ops s, hist_inv s -> tracked_run sg s ops = true -> hist_inv (hrun sg s ops).
+Proof. exact hist_inv_hrun. Qed.
+Print Assumptions C16_hist_inv_hrun.
+
+(* the two side conditions are invariants of every run, tracked or not *)
+Theorem C16_side_conditions_hrun :
+  forall sg ops s,
+    keys_distinct (b_args s) = true -> NoDup (map fst (b_hist s)) ->
+    keys_distinct (b_args (hrun sg s ops)) = true /\ NoDup (map fst (b_hist (hrun sg s ops))).
+Proof. exact side_conditions_hrun. Qed.
+Print Assumptions C16_side_conditions_hrun.
+
+Theorem C16_tag_ops_keep_args :
+  forall sg s o,
+    match o with HEdit _ => False | _ => True end -> b_args (fst (hstep sg s o)) = b_args s.
+Proof. exact tag_ops_keep_args. Qed.
+Print Assumptions C16_tag_ops_keep_args.
+
+(* from a configuration whose history is still empty both invariants hold after any tracked run *)
+Theorem C16_invariants_from_empty_history :
+  forall sg args tags c tr st ops,
+    keys_distinct args = true ->
+    tracked_run sg (mk_bs args tags [] c tr st) ops = true ->
+    last_is_current_b (hrun sg (mk_bs args tags [] c tr st) ops) = true /\
+    seqs_ok_b (hrun sg (mk_bs args tags [] c tr st) ops) = true.
+Proof. exact last_is_current_from_empty. Qed.
+Print Assumptions C16_invariants_from_empty_history.
+
+(* an edit under suspended tracking breaks it, as designed *)
+Theorem C16_last_is_current_needs_tracking :
+  let ops := [HSuspendBegin; HEdit (OSetAttr 2%N (RA (AInt 3))); HSuspendEnd] in
+  hist_inv cx_tracked /\ seqs_ok_b (hrun cx_sig cx_tracked ops) = true /\
+  b_hist (hrun cx_sig cx_tracked ops) = b_hist cx_tracked /\
+  last_is_current_b (hrun cx_sig cx_tracked ops) = false.
+Proof. exact last_is_current_needs_tracking. Qed.
+Print Assumptions C16_last_is_current_needs_tracking.
+
+(* ---- 6. non-vacuity *)
+Theorem C16_example_hypotheses :
+  valid_sig ex16_sig = true /\ inv ex16_sig (b_args ex16_state) /\
+  b_tracking ex16_state = true /\ hist_inv ex16_state /\ seqs_ok_b ex16_state = true /\
+  tracked_run ex16_sig ex16_state ex16_ops = true /\ length ex16_ops = 11%nat.
+Proof. exact ex16_hypotheses. Qed.
+Print Assumptions C16_example_hypotheses.
+
+Theorem C16_example_invariants :
+  invariants_along ex16_sig ex16_state ex16_ops = true /\
+  b_counter (hrun ex16_sig ex16_state ex16_ops) = 17%nat /\
+  seqs_ok_b (hrun ex16_sig ex16_state ex16_ops) = true /\
+  last_is_current_b (hrun ex16_sig ex16_state ex16_ops) = true.
+Proof.
+  split; [exact (proj1 ex16_run)|]. split; [|exact ex16_by_theorem].
+  rewrite (proj2 (proj2 ex16_run)). reflexivity.
+Qed.
+Print Assumptions C16_example_invariants.
